@@ -11,7 +11,7 @@ from sa.facts import Program
 from sa.sym import I, ZERO
 
 P = lambda p, f: sym.arrow(sym.sym(p), f)
-NOINLINE = summ.InlineLib(only=lambda f: False)
+NOINLINE = summ.LOCAL_HELPERS
 STOP = ("gaussian32", "approxPhase", "modSwitchFromTorus32", "modSwitchToTorus32", "dtot32", "t32tod",
         "tGswTorus32PolynomialDecompH")
 
@@ -234,7 +234,7 @@ def run(chk):
         for ename in ("lweSymEncrypt", "lweSymEncryptWithExternalNoise"):
             e = v.fn(ename)
             eps, _ = summ.pieces(v, e, hooks=inl())
-            eps = summ.fold_accumulators(eps)
+            eps = summ.forward_stored_calls(summ.fold_accumulators(eps))
             res = e.params[0]["n"]
             msg = e.params[1]["n"]
             key = e.params[-1]["n"]
